@@ -200,12 +200,11 @@ class LowLevelSqw:
         self, array: npt.NDArray[np.float64] | npt.NDArray[np.float32]
     ) -> None:
         out = array.astype(array.dtype.newbyteorder(self.byteorder.value), copy=False)
-        if isinstance(self._file, BytesIO):
-            # Inefficient because it constructs an entire separate buffer in memory.
-            # Could be optimised to write in chunks if need be.
-            self._file.write(out.tobytes())
-        else:
-            out.tofile(self._file)
+        # Write through the file object instead of ndarray.tofile.
+        # The latter bypasses the Python writer and uses C stdio on a duplicated
+        # file descriptor which silently drops its last buffer when the write fails
+        # (e.g. when the disk is full), leaving a truncated file without an error.
+        self._file.write(np.ascontiguousarray(out).data)
 
     @_annotate_write_exception("bytes")
     def write_raw(self, value: bytes | memoryview) -> None:
